@@ -146,10 +146,10 @@ PLANS = {
     "C08": dict(mc=MC("sync", thorough=["t_sync"]), runs=[R("capacity", (300, 5000), (3, 6), "C08", True), R("general", (150, 2000), (3, 5), "C08", True)]),
     "C10": dict(mc=MC("sync", "timed", "closeclone", thorough=["t_sync"], bounded=["t_timed"]), spec_l2l1=True, runs=[R("close", (300, 5000), (3, 6), "C10", True), R("general", (150, 2000), (3, 5), "C10", True),
                       R("discrace", (0, 0), (1, 1), "C10", True, programs_fn=freeze_sweep("discrace", (12, 200), (45, 60), "discrace10"))]),
-    "C11": dict(mc=MC("handles", "closeclone", thorough=["t_handles"]), runs=[R("hseq", (0, 0), (1, 1), "C11", True, programs_fn=handle_programs, own_all=True),
+    "C11": dict(mc=MC("handles", "closeclone", bounded=["t_handles"]), runs=[R("hseq", (0, 0), (1, 1), "C11", True, programs_fn=handle_programs, own_all=True),
                                         R("disconnect", (300, 5000), (3, 6), "C11", True), R("general", (150, 2000), (3, 5), "C11", True),
                                         R("discrace", (0, 0), (1, 1), "C11", True, own_all=True, programs_fn=freeze_sweep("discrace", (16, 200), (45, 60), "discrace11"))]),
-    "C12": dict(mc=MC("handles", "closeclone", thorough=["t_handles"]) + MCA("1p"), runs=[R("hseq", (0, 0), (1, 1), "C12", True, programs_fn=handle_programs, own_all=True),
+    "C12": dict(mc=MC("handles", "closeclone", bounded=["t_handles"]) + MCA("1p"), runs=[R("hseq", (0, 0), (1, 1), "C12", True, programs_fn=handle_programs, own_all=True),
                                         R("handles", (300, 5000), (3, 6), "C12", True)]),
     "C13": dict(mc=MC("timed", bounded=["t_timed"]), runs=[R("timed", (400, 6000), (4, 8), "C13", True), R("chain", (150, 3000), (2, 6), "C13", True)]),
     "C04": dict(mc=MC("mixed"), runs=[R("integrity_" + pl, (n, n * 12), (2, 4), "C04", True, own_all=True)
